@@ -358,8 +358,14 @@ Proof.
       * unfold kvs_size in *. cbn [fold_right fst snd]. lia.
       * exact Hw2.
       * cbn [app]. rewrite <- Pn. apply norm_cons_congr. exact Hn.
-    + inversion E; subst kvs more st'. exists []. rewrite app_nil_r. cbn [app].
-      split; [reflexivity|]. split; [exact Hm|]. split; [exact Hw1 | exact P].
+    + destruct (cs_cur st1) eqn:C1; [|destruct (max_read =? mtu) eqn:MM].
+      * inversion E; subst kvs more st'. exists []. rewrite app_nil_r. cbn [app].
+        split; [reflexivity|]. split; [exact Hm|]. split; [exact Hw1 | exact P].
+      * (* a forced break before anything was read: skipped *)
+        destruct (IH _ _ _ _ _ _ _ Hw1 Hm E) as (new & Hk & Hs & Hw2 & Hn).
+        exists new. split; [exact Hk|]. split; [exact Hs|]. split; [exact Hw2|]. rewrite Hn. exact P.
+      * inversion E; subst kvs more st'. exists []. rewrite app_nil_r. cbn [app].
+        split; [reflexivity|]. split; [exact Hm|]. split; [exact Hw1 | exact P].
     + inversion E; subst kvs more st'. exists []. rewrite app_nil_r. cbn [app].
       split; [reflexivity|]. split; [exact Hm|]. split; [exact Hw1 | destruct P; congruence].
     + contradiction.
@@ -376,18 +382,49 @@ Proof.
   cbn [rev app] in Hk. subst new. split; [exact Hs|]. split; assumption.
 Qed.
 
+(* the queue never grows, and a forced break consumes its marker *)
+Lemma next_reader_queue q : forall size r st1, next_reader q size = (r, st1) ->
+  (length (cs_queue st1) <= length q)%nat /\ (r = CTooSmall -> cs_cur st1 = None -> (length (cs_queue st1) < length q)%nat).
+Proof.
+  induction q as [|content q' IH]; intros size r st1; cbn [next_reader].
+  - intros H; inversion H; subst. cbn. split; [lia|discriminate].
+  - destruct (parse_item content) as [[c|]|].
+    + destruct (try_cur c size) as [r0 c'|] eqn:T.
+      * intros H; inversion H; subst. cbn [cs_queue cs_cur length]. split; [lia|]. intros -> Hc.
+        unfold try_cur in T. destruct (_ <=? 0); [inversion T; subst; discriminate|].
+        destruct (Nat.leb _ _); [discriminate T|]. destruct (c_rest c); discriminate T.
+      * intros H. destruct (IH _ _ _ H) as [A B]. cbn [length]. split; [lia|]. intros E1 E2. specialize (B E1 E2). lia.
+    + intros H; inversion H; subst. cbn [cs_queue length]. split; [lia|]. intros; lia.
+    + intros H; inversion H; subst. cbn [cs_queue length]. split; [lia|]. discriminate.
+Qed.
+
+Lemma read_chunk_queue st size r st1 : read_chunk st size = (r, st1) ->
+  (length (cs_queue st1) <= length (cs_queue st))%nat /\
+  (r = CTooSmall -> cs_cur st1 = None -> (length (cs_queue st1) < length (cs_queue st))%nat).
+Proof.
+  unfold read_chunk. destruct (cs_cur st) as [c|].
+  - destruct (try_cur c size) as [r0 c'|] eqn:T; [|apply next_reader_queue].
+    intros H; inversion H; subst. cbn [cs_queue cs_cur]. split; [lia|]. intros -> Hc.
+    unfold try_cur in T. destruct (_ <=? 0); [inversion T; subst; discriminate|].
+    destruct (Nat.leb _ _); [discriminate T|]. destruct (c_rest c); discriminate T.
+  - apply next_reader_queue.
+Qed.
+
 Lemma round_loop_total fuel : forall st max_read mtu acc,
-  wf_state st -> 0 <= max_read -> (Z.to_nat max_read < fuel)%nat ->
+  wf_state st -> 0 <= max_read -> (Z.to_nat max_read + length (cs_queue st) < fuel)%nat ->
   round_loop fuel st max_read mtu acc <> ROutOfFuel /\ round_loop fuel st max_read mtu acc <> RFail.
 Proof.
   induction fuel as [|f IH]; intros st max_read mtu acc Hw Hm Hf.
   - lia.
   - cbn [round_loop]. destruct (read_chunk st max_read) as [r st1] eqn:Er.
     destruct (read_chunk_spec _ _ _ _ Hw Er) as [Hw1 P].
+    destruct (read_chunk_queue _ _ _ _ Er) as [Q1 Q2].
     destruct r as [k v| | |]; cbn [chunk_post] in P.
     + destruct P as (_ & Psz & _). pose proof (kv_size_ge3 k v).
       apply IH; [exact Hw1 | lia | lia].
-    + split; discriminate.
+    + destruct (cs_cur st1) eqn:C1; [split; discriminate|].
+      destruct (max_read =? mtu); [|split; discriminate].
+      specialize (Q2 eq_refl eq_refl). apply IH; [exact Hw1 | exact Hm | lia].
     + split; discriminate.
     + contradiction.
 Qed.
@@ -401,11 +438,21 @@ Theorem yield_new_batch st size q :
   cs_cur st = None -> cs_queue st = [] :: q -> read_chunk st size = (CTooSmall, mkcs None q).
 Proof. intros Hc Hq. unfold read_chunk. rewrite Hc, Hq. reflexivity. Qed.
 
+(* a forced break at the very start of a message has nothing to separate: the round goes on as if it were not there *)
 Theorem yield_round st mtu q :
-  cs_cur st = None -> cs_queue st = [] :: q -> round st mtu = RRound [] false (mkcs None q).
+  cs_cur st = None -> cs_queue st = [] :: q -> round st mtu = round (mkcs None q) mtu.
 Proof.
-  intros Hc Hq. unfold round. cbn [round_loop]. rewrite (yield_new_batch st mtu q Hc Hq).
-  rewrite Z.eqb_refl. reflexivity.
+  intros Hc Hq. unfold round. rewrite Hq. cbn [length cs_queue]. rewrite Nat.add_succ_r. cbn [round_loop].
+  rewrite (yield_new_batch st mtu q Hc Hq). cbn [cs_cur]. rewrite Z.eqb_refl. reflexivity.
+Qed.
+
+(* ... and after at least one entry it ends the message with IsMoreServiceInfo set *)
+Theorem yield_ends_message fuel st max_read mtu acc q :
+  cs_cur st = None -> cs_queue st = [] :: q -> max_read <> mtu ->
+  round_loop (S fuel) st max_read mtu acc = RRound (rev acc) true (mkcs None q).
+Proof.
+  intros Hc Hq NE. cbn [round_loop]. rewrite (yield_new_batch st max_read q Hc Hq). cbn [cs_cur].
+  destruct (max_read =? mtu) eqn:E; [apply Z.eqb_eq in E; contradiction|reflexivity].
 Qed.
 
 (* ------------------------------------------------------------------------------------------------------------ *)
